@@ -62,10 +62,20 @@ func safetyClass(class string) bool {
 	return strings.HasPrefix(class, "safe:") || strings.HasPrefix(class, "dec:")
 }
 
+var frameGroups = map[string][]string{
+	"C19": {"parse", "render", "format", "walk"},
+	"C10": {"render"},
+	"C20": {"format"},
+	"C18": {"walk"},
+}
+
 func planFor(id string) propertyPlan {
 	switch id {
 	case "C04":
 		return propertyPlan{id: id, allFuncs: true, classFilter: safetyClass}
+	}
+	if _, ok := frameGroups[id]; ok {
+		return propertyPlan{id: id, frame: true, classFilter: func(c string) bool { return !safetyClass(c) }}
 	}
 	return propertyPlan{id: id, classFilter: func(c string) bool { return !safetyClass(c) }}
 }
@@ -372,7 +382,56 @@ func truncate(s string, n int) string {
 }
 
 func (cr *checkRun) extraChecks() {}
-func (cr *checkRun) runFrame()    {}
+// runFrame: the structural frame / determinism obligations of the property (DESIGN 2.6).
+func (cr *checkRun) runFrame() {
+	groups := map[string]bool{}
+	for _, g := range frameGroups[cr.prop] {
+		groups[g] = true
+	}
+	sums := cr.p.frameCheckGroups(groups)
+	var entries []map[string]interface{}
+	for _, s := range sums {
+		// one obligation per (entry point, reachable function): writes(F) stay inside modifies(entry)
+		cr.claimed += s.Functions
+		bad := map[string]bool{}
+		for _, v := range s.Viol {
+			at := v.Name
+			if i := strings.LastIndex(at, "@"); i >= 0 {
+				at = at[i+1:]
+			}
+			known := false
+			for _, k := range cr.known {
+				if k.Status == "open" && k.Property == cr.prop && k.Obligation == v.Name {
+					cr.knownHit = append(cr.knownHit, v.Name+" "+k.What)
+					known = true
+				}
+			}
+			if known {
+				continue
+			}
+			if !bad[at] {
+				bad[at] = true
+			}
+			cr.failObligation(v.Name, v.Desc+" ["+v.Pos+"]", nil, nil, nil, Result{Status: "frame-violation", Solver: "frame checker", Output: v.Desc + " at " + v.Pos})
+		}
+		cr.discharge += s.Functions - len(bad)
+		entries = append(entries, map[string]interface{}{"entry": s.Entry, "functions_reachable": s.Functions, "write_sites": s.Writes, "violations": len(s.Viol)})
+		if len(cr.samples) < 8 {
+			cr.samples = append(cr.samples, map[string]interface{}{"obligation": "frame:" + s.Entry, "text": fmt.Sprintf("every store/append/copy/map update in the %d functions reachable from %s targets memory allocated in the call, or the caller's writable arguments; never a package-level variable or a read-only argument", s.Functions, s.Entry), "write_sites": s.Writes, "status": "discharged"})
+		}
+	}
+	cr.extra["frame"] = entries
+	cr.extra["frame_rules"] = []string{
+		"abstract objects: allocation sites, entry-point parameters, package-level variables, values returned by user callbacks",
+		"inclusion-based points-to over go/ssa, flow-insensitive, memory partitioned by static pointer type; tuple results per index",
+		"calls through function values/interfaces resolve to every in-package function of identical signature whose address is taken, plus an unknown user implementation that does not write library memory",
+		"external functions write only through the arguments listed in externEffect (strings.Builder, bytes.Buffer, utf8.EncodeRune/AppendRune, strconv.Append*)",
+		"determinism: no range over a map, no go statement in reachable functions",
+	}
+	cr.assumptions = append(cr.assumptions,
+		"frame checker: structural (no SMT); dependency packages keep no shared mutable state reachable through their API (cases.Fold() returns a fresh caser; html entity tables initialised under sync.Once)",
+		"frame checker: user callbacks (FilterTag, WalkOptions, ReferenceMatcher, io.Reader/Writer) do not write library-owned memory")
+}
 
 // ---- evidence ----
 
